@@ -1,6 +1,6 @@
 (* C05 -- requests are served by priority, first-come-first-served among equals. *)
 From Coq Require Import List ZArith Bool Arith.
-From FV Require Queue StoreP StorePInv StorePOrder StoreB StoreBInv StoreBOrder.
+From FV Require Queue StoreP StorePInv StorePOrder StoreB StoreBInv StoreBOrder StoreQ.
 Import ListNotations.
 
 (* in every reachable state both waiting queues are strictly sorted by (priority, arrival) *)
@@ -48,6 +48,24 @@ Theorem C05_get_grant_is_min_bound :
                    forall y, In y q -> Queue.klt StoreB.r_prio StoreB.r_tok r y.
 Proof. exact StoreBOrder.trig_get_serves_min. Qed.
 Print Assumptions C05_get_grant_is_min_bound.
+
+(* PriorityReqStore (plain SimPy put / get requests with priorities): queues sorted by
+   (priority, arrival) in every reachable state; every grant serves the head *)
+Theorem C05_queues_sorted_priority_req_store :
+  forall c ops, StoreQ.QQInv (StoreQ.qrun (StoreQ.qinit c) ops).
+Proof. exact StoreQ.qinv_reachable. Qed.
+Print Assumptions C05_queues_sorted_priority_req_store.
+
+Theorem C05_grant_is_min_priority_req_store :
+  forall s o s' g, StoreQ.QQInv s -> StoreQ.qstep s o = (s', g) ->
+    match g with
+    | [] => True
+    | [StoreQ.GPut t] => exists r, StoreQ.q_tok r = t /\ forall y, In y (StoreQ.qputq s') -> Queue.klt StoreQ.q_prio StoreQ.q_tok r y
+    | [StoreQ.GGet t i] => exists r, StoreQ.q_tok r = t /\ forall y, In y (StoreQ.qgetq s') -> Queue.klt StoreQ.q_prio StoreQ.q_tok r y
+    | _ => False
+    end.
+Proof. exact StoreQ.qgrant_is_min. Qed.
+Print Assumptions C05_grant_is_min_priority_req_store.
 
 (* non-vacuity: priorities 3, -1, 3, -1 arrive in that order on a full store; service order is
    tokens 2 (prio -1), 4 (prio -1), 1 (prio 3), 3 (prio 3) *)
